@@ -788,6 +788,21 @@ example :
       = (0, [stUser9, stPending, stPending], 1, [stUser9, stError, stError], 1, [stUser9, stError, stError]) := by
   decide
 
+/-- the hypotheses of the `_sched` theorems are satisfiable in a state in which control IS in the event loop: after the task's
+    defer body yielded, the machine has halted with `done`, the stack is empty, the parent (fiber 1, the task) is blocked on
+    the body (fiber 2) which has not exited, neither is alive -/
+example :
+    let body : Tm := .prim 3 (.pure (.lit (.int 10))) (.prim 4 (.yield (.lit (.int 11))) (.ret (.lit (.int 13))))
+    let form : Tm := .prim 6 (.pure (.lit (.int 20))) (.ret (.lit (.int 21)))
+    let s := run 100 (initTask (deferTm 0 7 form body (.ret (.var 0))) [] {} .nil)
+    (match s.halt, s.fiber? 1, s.fiber? 2 with
+     | some (.done sg _), some fp, some ff =>
+        decide (sg = sigYield) && s.stack.isEmpty && decide (fp.child = some 2) && decide (fp.pending = none) && !inCcall fp &&
+        decide (ff.mask = maskOfFlags flagsTI) && !ff.root && !isFinished ff.status &&
+        (match fp.ctl with | .wait c => !c.isNext | _ => false) && decide (fp.status ≠ stAlive) && decide (ff.status ≠ stAlive)
+     | _, _, _ => false) = true := by
+  decide
+
 /-! ## the C recursion guard (janet_vm.stackn / JANET_RECURSION_GUARD) -/
 
 /-- ★ the counter is restored on EVERY exit path of janet_continue_no_check: normal return, signal, or a longjmp out of
